@@ -26,7 +26,7 @@ type Front struct {
 
 // NewH2Front serves handler over TLS with HTTP/2 enabled.
 func NewH2Front(handler http.Handler) *Front {
-	srv := httptest.NewUnstartedServer(handler)
+	srv := NewUnstartedServer(handler)
 	srv.Config.ErrorLog = nil
 	srv.EnableHTTP2 = true
 	srv.StartTLS()
@@ -46,10 +46,8 @@ func NewIPv6Front(handler http.Handler) *Front {
 	if err != nil {
 		return nil
 	}
-	srv := httptest.NewUnstartedServer(handler)
+	srv := &httptest.Server{Listener: ln, Config: &http.Server{Handler: handler}}
 	srv.Config.ErrorLog = nil
-	srv.Listener.Close()
-	srv.Listener = ln
 	srv.Start()
 	return &Front{Server: srv, Addr: ln.Addr().String()}
 }
